@@ -98,7 +98,7 @@ Theorem C07_write_chassis_control_wrappers : forall s w s', List.In w wrappers -
 Proof. exact write_chassis_wrapper. Qed.
 Print Assumptions C07_write_chassis_control_wrappers.
 
-(* fan level: FRU ids {0,255}; every level with local levels {0,128,255} and vice versa *)
+(* fan level: FRU ids {0,255}; every level with local levels {0,255} and vice versa *)
 Theorem C07_write_read_fan_level_partial : forall s fru level loc,
   List.In fru frus -> List.In (level, loc) fan_dom -> at_ (get s (K_FAN, fru, 0)) 1 = loc ->
   let s1 := put s (K_FAN, fru, 0) [level; loc] in
@@ -141,7 +141,7 @@ Theorem C07_write_read_event_receiver : forall s a lun, a < 128 -> lun < 4 ->
 Proof. exact write_read_event_receiver. Qed.
 Print Assumptions C07_write_read_event_receiver.
 
-(* thresholds: every subset of the six, and each threshold alone over 0..255, on two (sensor, LUN) pairs *)
+(* thresholds: every subset of the six; each threshold alone with bit values, unr alone over 0..255; two (sensor, LUN) pairs *)
 Theorem C07_write_read_thresholds_partial : forall s num lun m vals,
   List.In (num, lun) thr_sensors -> List.In (m, vals) thr_cases ->
   get s (K_THR, lun, num) = [0; 0; 0; 0; 0; 0] -> get s (K_THRMASK, lun, num) = [63] ->
